@@ -443,6 +443,24 @@ where
         }
     }
 
+    fn on_random(
+        &self,
+        id: Id,
+        state: &mut Cow<Self::State>,
+        random: &Self::Random,
+        o: &mut Out<Self>,
+    ) {
+        let actor = self.get();
+        let mut state_prime = Cow::Borrowed(state.get());
+        let mut o_prime = Out::new();
+        actor.on_random(id, &mut state_prime, random, &mut o_prime);
+
+        o.append(&mut o_prime);
+        if let Cow::Owned(state_prime) = state_prime {
+            *state = Cow::Owned(Choice::new(state_prime));
+        }
+    }
+
     fn name(&self) -> String {
         self.get().name()
     }
@@ -530,6 +548,36 @@ where
                 let mut state_prime = Cow::Borrowed(state_prime);
                 let mut o_prime = Out::new();
                 actor.on_timeout(id, &mut state_prime, timer, &mut o_prime);
+                o.append(&mut o_prime);
+                if let Cow::Owned(state_prime) = state_prime {
+                    *state = Cow::Owned(Choice::R(state_prime));
+                }
+            }
+            _ => unreachable!(),
+        }
+    }
+
+    fn on_random(
+        &self,
+        id: Id,
+        state: &mut Cow<Self::State>,
+        random: &Self::Random,
+        o: &mut Out<Self>,
+    ) {
+        match (self, &**state) {
+            (Choice::L(actor), Choice::L(state_prime)) => {
+                let mut state_prime = Cow::Borrowed(state_prime);
+                let mut o_prime = Out::new();
+                actor.on_random(id, &mut state_prime, random, &mut o_prime);
+                o.append(&mut o_prime);
+                if let Cow::Owned(state_prime) = state_prime {
+                    *state = Cow::Owned(Choice::L(state_prime));
+                }
+            }
+            (Choice::R(actor), Choice::R(state_prime)) => {
+                let mut state_prime = Cow::Borrowed(state_prime);
+                let mut o_prime = Out::new();
+                actor.on_random(id, &mut state_prime, random, &mut o_prime);
                 o.append(&mut o_prime);
                 if let Cow::Owned(state_prime) = state_prime {
                     *state = Cow::Owned(Choice::R(state_prime));
